@@ -44,6 +44,7 @@ class StepClock:
         self.budget = None
         self.kill_at = None
         self.on_step = None
+        self.on_kill = None
         self.active = False
         self.prefixes = (REPO_DIR.rstrip("/") + "/vyxal/", "<vy")
         self.extra_string = False
@@ -83,14 +84,18 @@ class StepClock:
         s = self.steps
         if self.kill_at is not None and s >= self.kill_at:
             self.kill_at = s + 2000  # raise again only if the program swallows the kill and keeps running
+            if self.on_kill is not None:
+                # a real SIGKILL runs no finally block: whatever must be read "as of the kill" is frozen here
+                self.on_kill()
             raise Killed(s)
         if self.budget is not None and s > self.budget:
             self.budget = s + 2000
             raise StepBudgetExceeded(s)
         return None
 
-    def start(self, budget=None, kill_at=None, count_string=False):
+    def start(self, budget=None, kill_at=None, count_string=False, on_kill=None):
         self.install()
+        self.on_kill = on_kill
         self.steps = 0
         self.unwinds = 0
         self.last_unwind = None
